@@ -81,6 +81,11 @@ func (i *itemsValidator) Validate(index int, data interface{}) *Result {
 		}()
 	}
 
+	if data == nil {
+		// like parameters and headers, a nil item is not validated
+		return nil
+	}
+
 	tpe := reflect.TypeOf(data)
 	kind := tpe.Kind()
 	var result *Result
